@@ -452,6 +452,7 @@ def run_check(tier, seed):
                 if after != before:
                     findings.append({'what': 'sealed export: %s changed the size of a pre-existing file: %s -> %s (errno %s)' % (coq_req(r), before, after, e),
                                      'input': inp, 'sig': sig_of(r)})
+                    S.reset_sizes(before)            # one violation must not mask the next: go on from the sizes the export has to keep
                 elif cls == 'change' and e == 0 and not (r['op'] == 'write' and r['len'] == 0):
                     findings.append({'what': 'sealed export: size-changing request %s was not refused' % coq_req(r), 'input': inp,
                                      'sig': dict(sig_of(r), kind='not-refused')})
